@@ -14,15 +14,16 @@ def build(variant):
     return core.build_harness("h_calls_" + variant, ["h_calls.cpp"], core.SAN + flags)
 
 
-def guest_so():
-    """the guest side for the dylib backend (harness/guest_calls.cpp) as a shared object; returns (path, log)"""
+def guest_so(gid=1):
+    """the guest side for the dylib backend (harness/guest_calls.cpp) as a shared object; returns (path, log).
+    gid selects which of the two guest libraries (same exported names, different identity) is built."""
     import hashlib, os
     src = os.path.join(core.HARNESS, "guest_calls.cpp")
     key = hashlib.sha256(open(src, "rb").read()).hexdigest()[:16]
-    out = os.path.join(core.WORK, "bin", f"libguest_calls-{key}.so")
+    out = os.path.join(core.WORK, "bin", f"libguest_calls{gid}-{key}.so")
     os.makedirs(os.path.dirname(out), exist_ok=True)
     if not os.path.exists(out):
-        r = core.sh(["g++", "-shared", "-fPIC", "-O1", "-g", src, "-o", out + ".tmp"])
+        r = core.sh(["g++", "-shared", "-fPIC", "-O1", "-g", f"-DVH_GUEST_ID={gid}", src, "-o", out + ".tmp"])
         if r.returncode != 0:
             return None, r.stdout
         os.rename(out + ".tmp", out)
@@ -31,8 +32,9 @@ def guest_so():
 
 def env_for(variant):
     if variant.startswith("dylib"):
-        so, log = guest_so()
-        return {"VH_GUEST_SO": so} if so else None
+        so, log = guest_so(1)
+        so2, log2 = guest_so(2)
+        return {"VH_GUEST_SO": so, "VH_GUEST_SO2": so2} if so and so2 else None
     return None
 
 
@@ -167,6 +169,8 @@ def oracle_c19(toks, line):
 def oracle_scenarios(toks, line):
     """cbptr: the guest reads, through the pointer the callback returned, the value the callback stored; cbmany: every live
     entry point still runs the function it was handed out for"""
+    if toks[0] == "dywho":
+        return line in ("ok 101 202", "na")
     if toks[0] == "cbptr":
         return line == f"ok {int(toks[2])}"
     if toks[0] == "cbmany":
@@ -176,7 +180,7 @@ def oracle_scenarios(toks, line):
 
 
 def oracle_c12(toks, line):
-    if toks[0] in ("cbptr", "cbmany"):
+    if toks[0] in ("cbptr", "cbmany", "dywho"):
         return oracle_scenarios(toks, line)
     """every executed callback node: the function registered for that entry point on the executing sandbox runs,
     once, with the executing sandbox and the guest's argument; its result reaches the guest unless something faulted"""
